@@ -6,7 +6,7 @@ checks={
  "C01":("exploration","H","every history of <=K edits and <=Y syncs per (data type x pair of edit kinds x client count) scenario, partial-order reduced, is executed on real client.Client replicas and the real in-process server and followed by the quiescent closure; no sync error, byte-identical replicas, equality with the server rebuild, equality whenever two replicas are at the same checkpoint","stateless bounded exhaustive enumeration of histories (DFS, partial-order reduction) on the implementation"),
  "C02":("exploration","H","every history with a late (snapshot-fed) attacher at any position, cache eviction at any position, snapshot threshold/interval in {(1,1),(2,1),(2,2)}; snapshot-fed and change-fed replicas and the server rebuild agree, clone==root, and the rebuild at EVERY serverSeq (cold, warm ascending, warm descending) equals a one-by-one replay of the stored log","bounded exhaustive history enumeration + differential oracle against independent log replay"),
  "C03":("exploration","H","every history over garbage-producing/-referencing edit kinds executed twice, GC on and GC off (document.WithDisableGC + SnapshotDisableGC): no sync/rebuild error, convergence, identical content in both worlds","bounded exhaustive history enumeration with twin-world (GC on/off) differential oracle"),
- "C04":None,
+ "C04":("exploration","S+H","concurrent: all schedules with <=2 preemptions (Engine S: cooperative scheduler owning named-lock operations, storage calls and background tasks) of closed 2-3 handler harnesses that push, pull, attach and detach on one document; sequential: every bounded 3-client history; log gap-free/ordered/exactly-once-delivery oracle plus convergence on every execution","stateless exhaustive schedule enumeration with preemption bounding on the real handlers + bounded history enumeration"),
  "C05":("fault_enumeration","H","for every history of the family and every sync request in it: one execution per storage call of that request (discovered by a recording pass through the generated Backend.DB decorator) x {error before, error after the call took effect} plus response lost, each with and without an immediate identical retry; exactly-once log, convergence, replay equality, counters equal the fault-free twin","exhaustive single-fault enumeration over every storage call of every request of every bounded history"),
  "C06":("exploration","H","clock and minimum-vector clauses monitored on every execution of the scenario list (pairs, 3 clients, attach/detach, snapshots, disable_gc participant): per-change clock clauses on the stored log with the author's applied set recorded by the harness; at every response minVV <= every stored row and row <= replica vector at request time","bounded exhaustive history enumeration with per-execution monitors"),
  "C07":("exploration","P","all programs of length <=4 over each data type's call templates next to a plain Go reference model, all visible accessors compared after every call; plus all programs of length <=2 from non-initial states harvested through the real server","exhaustive enumeration of call programs against a reference model"),
@@ -18,7 +18,8 @@ checks={
  "C13":("exploration","X","complete finite matrix procedure (from service descriptors) x credential x every subset of foreign ids/keys x UseDefaultProject; refusal codes, indistinguishability from non-existent ids, victim project's rows byte-identical, no content leak","exhaustive enumeration of a finite request matrix"),
  "C14":("exploration","P","all programs of <=3 content edits x all valid undo/redo words of length <=5 on one replica; recorded normalised contents are the reference; second set with styles/moves/sets must never fail and keep clone==root","exhaustive enumeration of edit programs x undo/redo words"),
  "C15":("exploration","H","every 2-client history with <=K edits from the C14 alphabet, <=U undo/redo calls, <=Y syncs, GC on: C01's oracle plus clone==root","bounded exhaustive history enumeration"),
- "C16":None,"C17":None,
+ "C16":("exploration","S","all schedules with <=2 preemptions of closed harnesses of 2-3 real handler calls incl. Deactivate (cluster detach), Remove, forced Compact and background snapshot store; deadlock = no enabled thread while one is unfinished (RWMutex writer preference modelled); lock order doc->pull->attachment->push; C04 and C01 oracles on every schedule","stateless exhaustive schedule enumeration with preemption bounding (iterative context bounding) on the real handlers"),
+ "C17":("exploration","Y","every call-level interleaving of subscribers' and publishers' programs and clock events on the real PubSub inside testing/synctest bubbles, times every subset of stalled consumers","exhaustive enumeration of interleavings under a virtual clock (testing/synctest)"),
  "C18":("exploration","H+G","every distinct document reached by the bounded histories and every generated YSON value (31 leaf/element values in 5 contexts + all ordered pairs) goes through FromCRDT -> Marshal -> Unmarshal -> SetYSON -> FromCRDT; forced server compaction must succeed","exhaustive enumeration of reachable documents (bounded histories) and of a YSON grammar"),
  "C19":("exploration","H","the five upstream tree matrices (1592 pairs) x both sync orders x {2 clients, + snapshot-fed third}: complete enumeration","complete enumeration of a finite matrix on the implementation"),
  "C20":("model_checking","M+H","ChangeStore: BFS over all event sequences (N<=4 changes) de-duplicated on the canonical state against a ground-truth table; pkg/cache: all sequences of length <=5 against a map; snapshot cache: every bounded history, rebuild through the cache at every point vs log replay","explicit-state BFS of the real data structure against a reference table + bounded history enumeration"),
@@ -30,11 +31,13 @@ m={
  "version":1,
  "setup_cmd":"bin/setup.sh",
  "hooks":{"guard":"verif","enable":"./check rebuilds /verif/mc against /repo's working tree with `go build -tags verif` on every invocation (go.mod and the Backend.DB decorator are regenerated from /repo first)",
-   "baseline_off_cmd":"bin/baseline_off.sh","source_commits":["9814085c","2efffff1","1b09ec56"],"add_only":True},
+   "baseline_off_cmd":"bin/baseline_off.sh","source_commits":["9814085c","2efffff1","1b09ec56","85ef03fc"],"add_only":True},
  "engines":[
   {"name":"H","path":"mc/hist","serves_properties":["C01","C02","C03","C05","C06","C08","C09","C10","C12","C15","C18","C19","C20"],"kind_free_text":"bounded exhaustive history exploration (edits x syncs x attach/detach x undo/redo x environment events x faults, partial-order reduced DFS) on real client.Client replicas and the real rpc.Server handler in-process over memdb"},
   {"name":"P","path":"mc/checks (c07,c08,c14)","serves_properties":["C07","C08","C14"],"kind_free_text":"exhaustive enumeration of single-replica call programs against plain Go reference models / recorded contents"},
   {"name":"M","path":"mc/checks (c11,c20)","serves_properties":["C11","C20"],"kind_free_text":"explicit-state breadth-first search over a reference model whose every transition is replayed on the implementation"},
+  {"name":"S","path":"mc/sched","serves_properties":["C04","C16"],"kind_free_text":"cooperative scheduler for real goroutines: scheduling points at named-lock operations (verif trace hook), storage calls (generated Backend.DB decorator) and background tasks (verif spawn hook); named locks modelled with Go RWMutex semantics incl. writer preference; depth-first search over choice sequences with a preemption bound and deterministic prefix replay"},
+  {"name":"Y","path":"mc/pubsubmc","serves_properties":["C17"],"kind_free_text":"testing/synctest bubbles (virtual clock) around the real PubSub; exhaustive enumeration of call-level interleavings; compiled as a test binary launched by the driver"},
   {"name":"X","path":"mc/checks (c13)","serves_properties":["C13"],"kind_free_text":"complete finite request matrix generated from the protobuf service descriptors"},
  ],
  "checks":[],"not_applicable":[],"notes":"known_findings.json lists genuine defects of the pinned tree that are recorded rather than repaired (and the repaired ones under 'fixed'); replays/ is written at run time"
